@@ -1,6 +1,7 @@
 import Dcg.Driver.Proto
 import Dcg.Driver.Constraints
 import Dcg.Sem.Pyd
+import Dcg.Model.Names
 /-
 Driver for the semantic model (C03/C04/C14): `validJ`, `tr` (IR dump), `acceptsTy`.
 Schemas, JSON values and the regular-expression oracle travel as S-expressions (see vlib/semlean.py).
@@ -96,6 +97,15 @@ partial def schema? : SX → Option Schema
         | _ => none), req.mapM SX.str?, xreq.mapM SX.str? with
     | some refs, some ps, some req, some xreq => some (.allOf refs ps req xreq)
     | _, _, _, _ => none
+  -- (disc <oneOf:0|1> <prop> (<ref>…) ((<tag> <ref>)…))
+  | .list [.atom "disc", one, prop, .list refs, .list mp] =>
+    match one.bool?, prop.str?, refs.mapM SX.str?, mp.mapM (fun (e : SX) => match e with
+        | .list [k, r] => match k.str?, r.str? with
+          | some k, some r => some (k, r)
+          | _, _ => none
+        | _ => none) with
+    | some one, some prop, some refs, some mp => some (.disc one prop refs mp)
+    | _, _, _, _ => none
   | _ => none
 
 def defs? : SX → Option Defs
@@ -126,6 +136,7 @@ def opts? : SX → Option Opts
 def ctx? : SX → Option Ctx
   | .atom "top" => some .top
   | .atom "plain" => some .plain
+  | .atom "item" => some (.item false)
   | _ => none
 
 /-! dumps -/
@@ -173,6 +184,17 @@ partial def showTy : Ty → String
   | .ref n => "(ref " ++ encodeStr n ++ ")"
   | .opt t => "(opt " ++ showTy t ++ ")"
   | .union ts => "(union" ++ String.join (ts.map (" " ++ showTy ·)) ++ ")"
+  | .tagged prop bs =>
+    "(tagged " ++ encodeStr prop ++ String.join (bs.map (fun b =>
+      " ((" ++ " ".intercalate (b.1.map showAtom) ++ ") " ++ encodeStr b.2 ++ ")")) ++ ")"
+
+partial def showJson : Json → String
+  | .null => "null"
+  | .bool b => "(b " ++ (if b then "1" else "0") ++ ")"
+  | .num d => "(n " ++ toString d.m ++ " " ++ toString d.e ++ ")"
+  | .str s => "(s " ++ encodeStr s ++ ")"
+  | .arr xs => "(a" ++ String.join (xs.map (" " ++ showJson ·)) ++ ")"
+  | .obj kvs => "(o" ++ String.join (kvs.map (fun kv => " (" ++ encodeStr kv.1 ++ " " ++ showJson kv.2 ++ ")")) ++ ")"
 
 def showTri : Tri → String
   | .accept => "accept" | .reject => "reject" | .laxZone => "lax"
@@ -201,6 +223,43 @@ def handlers : List (String × Handler) := [
     | [st, o, c, s] => match style? st, opts? o, ctx? c, schema? s with
       | some st, some o, some c, some s => "ok " ++ showTy (tr st o c s)
       | _, _, _, _ => "err args"
+    | _ => "err args"),
+  -- sem.pfields <style> <routing> <snake_case_field 0|1> <allOf schema>
+  --   own fields of the class of an allOf, WITH their Python names (field-name resolver of Dcg.Model.Names),
+  --   after the allOf-level `required` was applied: ok (<python name> <original name> <required>)…
+  ("sem.pfields", fun
+    | [st, o, sn, s] => match style? st, opts? o, sn.bool?, schema? s with
+      | some st, some o, some sn, some (.allOf _ props req xreq) =>
+        match Dcg.Model.Names.foldProps Dcg.Model.Names.pyEnv .pydantic { snakeCase := sn }
+            (props.map (fun p => (p.1, false))) [] with
+        | .ok (fs, _) =>
+          let table := (props.map (·.1)).zip (fs.map (·.1.1))
+          let nm := fun (n : List Char) => (table.lookup n).getD n
+          "ok" ++ String.join ((markRequired xreq (parseFields st o nm req props)).map (fun f =>
+            " (" ++ encodeStr f.name ++ " " ++ encodeStr f.key ++ " " ++ (if f.required then "1" else "0") ++ ")"))
+        | _ => "err resolver"
+      | _, _, _, _ => "err args"
+    | _ => "err args"),
+  -- sem.trdef <style> <routing> <defs> <body> <name>   (the class of a definition after the discriminator pass)
+  ("sem.trdef", fun
+    | [st, o, ds, body, n] => match style? st, opts? o, defs? ds, schema? body, n.str? with
+      | some st, some o, some ds, some body, some n =>
+        match (patchDefs (docSites ds body) (trDefs st o ds)).lookup n with
+        | some d => "ok " ++ showTy d
+        | none => "err no such definition"
+      | _, _, _, _, _ => "err args"
+    | _ => "err args"),
+  -- sem.dump <style> <routing> <fuel> <regex-table> <defs> <schema> <json>   (document = top context)
+  --   → ok <verdict> <declared 0|1> <dumped json>
+  ("sem.dump", fun
+    | [st, o, g, re, ds, s, v] =>
+      match style? st, opts? o, g.nat?, regex? re, defs? ds, schema? s, json? v with
+      | some st, some o, some g, some re, some ds, some s, some v =>
+        let D := trDefs st o ds
+        let t := tr st o .top s
+        "ok " ++ showTri (acceptsTy st re g D t v) ++ " " ++ (if declared st re g D t v then "1" else "0") ++ " " ++
+          showJson (dump st re g D t v)
+      | _, _, _, _, _, _, _ => "err args"
     | _ => "err args"),
   -- sem.accepts <style> <routing> <fuel> <regex-table> <defs> <schema> <json>   (document = top context)
   ("sem.accepts", fun
